@@ -489,7 +489,7 @@ class PipelineCheck(Check):
             "PYTHONHASHSEED), with faults: crash at any step boundary + re-run from scratch, torn / lost write of the "
             "file in flight, stale directory of another grid, global-RNG perturbation between stages; the stages run inside "
             "a molgri project directory and in a quarter of the runs the stages of a second experiment of the same project "
-            "are interleaved; the SqRA stage may scan T/D on the loaded geometry first. Energies: normal, wide below the "
+            "are interleaved; the SqRA stage may scan T/D on the loaded geometry first; the writer's grid may be inspected (1-3 getter calls) before the save; one DecompositionTool may serve several start vectors or be asked once more before the recorded call. Energies: normal, wide below the "
             "cap, radial ramps over up to 15 shells, whole-number columns, duplicate lines, several line layouts, down to "
             "cryogenic temperatures. Swarm over "
             "rotation/direction algorithms, sizes, radial text forms, both position modes, factor, T, D, energy spread, "
@@ -1090,7 +1090,8 @@ class PersistenceCheck(Check):
     rule = ("one run = either (a) a grid-file history: GridWriter saves of 1-2 specifications on the same paths in "
             "seeded order, possibly crashed (torn / lost file) and re-run, then a warm or cold (fresh interpreter) "
             "GridReader; loaded arrays and sparse matrices must equal, bit for bit incl. format and index arrays, what "
-            "the writer object returns in memory, which in turn must equal a FullGrid built directly from the same strings; or (b) an energy-table scenario: a fake GROMACS peer writes an .xvg "
+            "the writer object returns in memory, which in turn must equal a FullGrid built directly from the same strings "
+            "(the writer's grid may have been inspected through 1-3 getter calls before the save); or (b) an energy-table scenario: a fake GROMACS peer writes an .xvg "
             "(0-13 '#' lines, '@' lines to reach >=13 header lines, 1-10 legends with awkward texts, 1-200 rows in "
             "several number formats), EnergyReader (warm or cold) must return one row per data line in order, columns "
             "Time + legends, values == float(token), the single column, and a csv round trip (to_csv -> EnergyReader) "
